@@ -5,7 +5,14 @@
 // One self-contained op per line (family `codec`):
 //   codec obj <spec...>                                   build an object, serialize, re-read, try every strict prefix
 //   codec corrupt <type> <rank> <dims> <seed> <mode> [m]  single byte corruptions of a tensor stream
-//   codec read <fmt...> x<hex> [extra...]                 read exactly these bytes (the input-level replay op)
+//   codec read <fmt...> x<hex> [extra...]                 read exactly these bytes (the input-level replay op); an extra
+//                                                         token `dirty=x<hex>` is a valid stream of the same format that is
+//                                                         read into the destination FIRST (previously used destination)
+//   codec into <specA...> // <specB...>                   serialize A and B (same format), read B's stream into an object
+//                                                         and then A's stream (and every strict prefix of it) into the
+//                                                         SAME, used object: the result must be exactly A
+//   codec scalar <type> <value>                           nano::write / nano::read / detail::hash of ONE scalar: the
+//                                                         endianness / width / sign-extension self-test
 // Bytes travel as `x<lowercase hex>`, doubles as the 16 hex digits of their bit pattern (never `nan`).
 // In `codec obj` an id token `@<k>` stands for the k-th id (modulo their number) of the factory; the augmented line
 // of factory / wlearner / linear objects ends with `id=<resolved id>`, the one of gboost with `ids=<id1>,<id2>,...`.
@@ -27,6 +34,8 @@
 #include <nano/configurable.h>
 #include <nano/dataset.h>
 #include <nano/dataset/iterator.h>
+#include <nano/datasource.h>
+#include <nano/program/solver.h>
 #include <nano/feature.h>
 #include <nano/gboost/model.h>
 #include <nano/generator/elemwise_identity.h>
@@ -703,6 +712,48 @@ struct feature_value_t final : value_i
     feature_t m_feature;
 };
 
+// `nano::read/write(std::string)` and `std::vector<std::string>` (core/stream.h) on their own
+struct string_value_t final : value_i
+{
+    void read(std::istream& stream) override { ::nano::read(stream, m_string); }
+
+    void write(std::ostream& stream) const override { ::nano::write(stream, m_string); }
+
+    void dump(dump_t& out) const override { out.t("STR").b(m_string); }
+
+    bool equal(const value_i& other) const override
+    {
+        const auto* const rhs = dynamic_cast<const string_value_t*>(&other);
+        return rhs != nullptr && m_string == rhs->m_string;
+    }
+
+    std::string m_string;
+};
+
+struct strings_value_t final : value_i
+{
+    void read(std::istream& stream) override { ::nano::read(stream, m_strings); }
+
+    void write(std::ostream& stream) const override { ::nano::write(stream, m_strings); }
+
+    void dump(dump_t& out) const override
+    {
+        out.t("STRS").i(m_strings.size());
+        for (const auto& string : m_strings)
+        {
+            out.b(string);
+        }
+    }
+
+    bool equal(const value_i& other) const override
+    {
+        const auto* const rhs = dynamic_cast<const strings_value_t*>(&other);
+        return rhs != nullptr && m_strings == rhs->m_strings;
+    }
+
+    strings_t m_strings;
+};
+
 template <class tobject>
 struct factory_value_t final : value_i
 {
@@ -829,6 +880,7 @@ auto with_factory(const std::string& which, const tfun& fun)
     if (which == "lsearch0") return fun(otag_t<lsearch0_t>{});
     if (which == "lsearchk") return fun(otag_t<lsearchk_t>{});
     if (which == "linear") return fun(otag_t<linear_t>{});
+    if (which == "datasource") return fun(otag_t<datasource_t>{});
     throw bad_op("unknown factory " + which);
 }
 
@@ -910,6 +962,14 @@ fmt_t parse_fmt(toks_t& toks)
     {
         return make_simple_fmt<feature_value_t>("feature");
     }
+    if (kind == "string")
+    {
+        return make_simple_fmt<string_value_t>("string");
+    }
+    if (kind == "strings")
+    {
+        return make_simple_fmt<strings_value_t>("strings");
+    }
     if (kind == "factory")
     {
         const auto which = toks.s();
@@ -935,10 +995,31 @@ fmt_t parse_fmt(toks_t& toks)
     throw bad_op("unknown format " + kind);
 }
 
-// ---- one read attempt: fresh object, istringstream over exactly the given bytes -----------------------------------
-rvalue_t try_read(const fmt_t& fmt, const std::string& bytes)
+// ---- one read attempt: fresh object (or a used one: `dirty` is a valid stream of the same format that is read into the
+// destination first), istringstream over exactly the given bytes ------------------------------------------------------
+// set by try_read when the reader left the stream good but the factory object null
+bool g_null_accepted = false;
+
+rvalue_t try_read(const fmt_t& fmt, const std::string& bytes, const std::string* dirty = nullptr)
 {
-    auto value = fmt.m_fresh();
+    g_null_accepted = false;
+    auto value      = fmt.m_fresh();
+    if (dirty != nullptr)
+    {
+        std::istringstream stream(*dirty);
+        try
+        {
+            value->read(stream);
+        }
+        catch (const std::exception&)
+        {
+            throw bad_op("the dirty stream is not readable");
+        }
+        if (!static_cast<bool>(stream) || !value->valid())
+        {
+            throw bad_op("the dirty stream is not readable");
+        }
+    }
 
     const replay_guard_t guard{fmt.m_text, bytes};
     std::istringstream   stream(bytes);
@@ -950,7 +1031,13 @@ rvalue_t try_read(const fmt_t& fmt, const std::string& bytes)
     {
         return nullptr;
     }
-    if (!static_cast<bool>(stream) || !value->valid())
+    if (static_cast<bool>(stream) && !value->valid())
+    {
+        // a good stream and a null factory object: NOT a reported failure (stream.h:168-172 must set failbit)
+        g_null_accepted = true;
+        return nullptr;
+    }
+    if (!static_cast<bool>(stream))
     {
         return nullptr;
     }
@@ -1651,6 +1738,84 @@ built_t build_feature(toks_t& toks)
     return built;
 }
 
+// `<length> <seed>`: a string of exactly that many arbitrary bytes
+built_t build_string(toks_t& toks)
+{
+    const auto length = toks.i64();
+    const auto seed   = to_seed(toks);
+    if (length < 0 || length > (1 << 20))
+    {
+        throw bad_op("string length");
+    }
+    auto rng   = rng_t{mix_seed(seed, 21U)};
+    auto value = std::make_unique<string_value_t>();
+    value->m_string.resize(static_cast<size_t>(length));
+    for (auto& c : value->m_string)
+    {
+        c = static_cast<char>(rng.below(256U));
+    }
+
+    built_t built;
+    built.m_fmt   = make_simple_fmt<string_value_t>("string");
+    built.m_value = std::move(value);
+    return built;
+}
+
+// `<count> <maxlen> <seed>`
+built_t build_strings(toks_t& toks)
+{
+    const auto count  = toks.i64();
+    const auto maxlen = toks.i64();
+    const auto seed   = to_seed(toks);
+    if (count < 0 || count > 4096 || maxlen < 0 || maxlen > (1 << 16))
+    {
+        throw bad_op("strings");
+    }
+    auto rng   = rng_t{mix_seed(seed, 22U)};
+    auto value = std::make_unique<strings_value_t>();
+    for (int64_t i = 0; i < count; ++i)
+    {
+        std::string string(static_cast<size_t>(rng.below(static_cast<uint64_t>(maxlen) + 1U)), ' ');
+        for (auto& c : string)
+        {
+            c = static_cast<char>(rng.below(256U));
+        }
+        value->m_strings.push_back(std::move(string));
+    }
+
+    built_t built;
+    built.m_fmt   = make_simple_fmt<strings_value_t>("strings");
+    built.m_value = std::move(value);
+    return built;
+}
+
+// `<seed>`: the (non-factory) configurable `program::solver_t` with its registered parameters randomly set
+built_t build_program_solver(toks_t& toks)
+{
+    const auto seed = to_seed(toks);
+
+    auto rng   = rng_t{mix_seed(seed, 23U)};
+    auto value = std::make_unique<config_value_t>();
+    {
+        auto solver = program::solver_t{};
+        random_config(solver, rng);
+        // the registered parameters (and their values) travel through the plain configurable
+        std::ostringstream ostream;
+        solver.write(ostream);
+        std::istringstream istream(ostream.str());
+        value->m_config.read(istream);
+        if (!istream)
+        {
+            throw std::logic_error("program::solver_t is not readable as a configurable");
+        }
+    }
+
+    built_t built;
+    built.m_fmt   = make_simple_fmt<config_value_t>("configurable");
+    built.m_value = std::move(value);
+    return built;
+}
+
 built_t build_factory(toks_t& toks)
 {
     const auto which = toks.s();
@@ -1906,6 +2071,18 @@ built_t build(toks_t& toks)
     {
         return build_feature(toks);
     }
+    if (kind == "string")
+    {
+        return build_string(toks);
+    }
+    if (kind == "strings")
+    {
+        return build_strings(toks);
+    }
+    if (kind == "program-solver")
+    {
+        return build_program_solver(toks);
+    }
     if (kind == "factory")
     {
         return build_factory(toks);
@@ -2012,7 +2189,7 @@ std::string op_obj(toks_t& toks, std::string& aug)
     std::vector<size_t> accepted;
     for (size_t k = 0U; k < S.size(); ++k)
     {
-        if (try_read(fmt, S.substr(0U, k)))
+        if (try_read(fmt, S.substr(0U, k)) || g_null_accepted)
         {
             accepted.push_back(k);
         }
@@ -2117,15 +2294,183 @@ std::string op_read(toks_t& toks, std::string& aug)
 
     aug = "codec read " + fmt.m_text + " " + xhex(bytes) + " #" + (extra.empty() ? "" : " " + extra);
 
-    const auto value = try_read(fmt, bytes);
+    std::string dirty;
+    auto        has_dirty = false;
+    for (size_t i = toks.i; i < toks.t.size(); ++i)
+    {
+        if (toks.t[i].rfind("dirty=", 0) == 0)
+        {
+            dirty     = unhex(toks.t[i].substr(6U));
+            has_dirty = true;
+        }
+    }
+
+    const auto value = try_read(fmt, bytes, has_dirty ? &dirty : nullptr);
     if (!value)
     {
-        return "reject";
+        return g_null_accepted ? "null-object" : "reject";
     }
     dump_t out;
     out.t("ok");
     value->dump(out);
     return out.m_text;
+}
+
+// the destination of a read is an object that was used before: what it held must not matter
+std::string op_into(toks_t& toks, std::string& aug)
+{
+    const auto spec_begin = toks.i;
+    const auto built      = build(toks);
+    if (toks.s() != "//")
+    {
+        throw bad_op("expected //");
+    }
+    const auto other = build(toks);
+    if (!toks.done())
+    {
+        throw bad_op("trailing tokens");
+    }
+    const auto  spec = join_from(toks, spec_begin);
+    const auto& fmt  = built.m_fmt;
+    if (fmt.m_text != other.m_fmt.m_text)
+    {
+        throw bad_op("the two objects have different formats");
+    }
+    const auto& orig = *built.m_value;
+
+    const auto S = serialize(orig);
+    const auto D = serialize(*other.m_value);
+
+    {
+        dump_t dump;
+        orig.dump(dump);
+        aug = "codec into " + fmt.m_text + " " + xhex(S) + " # " + dump.m_text + " # dirty=" + xhex(D) + " " + spec;
+    }
+
+    const auto reread = try_read(fmt, S, &D);
+    if (!reread)
+    {
+        return "reject-full";
+    }
+    const auto S2 = serialize(*reread);
+    const auto eq = orig.equal(*reread);
+
+    std::vector<size_t> accepted;
+    for (size_t k = 0U; k < S.size(); ++k)
+    {
+        if (try_read(fmt, S.substr(0U, k), &D) || g_null_accepted)
+        {
+            accepted.push_back(k);
+        }
+    }
+
+    dump_t out;
+    out.t("ok").t(xhex(S2)).i(eq ? 1 : 0).i(accepted.size());
+    for (const auto k : accepted)
+    {
+        out.i(k);
+    }
+    reread->dump(out);
+    return out.m_text;
+}
+
+// one scalar through nano::write, nano::read and detail::hash: the platform assumptions of the model
+// (little endian, two's complement, the widths, sign extension of signed integers in the hash) observed directly
+template <class tscalar>
+std::string scalar_selftest(const tscalar value)
+{
+    static_assert(sizeof(tensor_size_t) == 8, "tensor_size_t is int64_t on the wire (feature dims, indices)");
+    static_assert(sizeof(tensor3d_dims_t) == 24, "feature dims travel as 24 raw bytes");
+    static_assert(sizeof(scalar_t) == 8 && std::numeric_limits<scalar_t>::is_iec559, "IEEE doubles");
+
+    std::ostringstream ostream;
+    ::nano::write(ostream, value);
+    const auto bytes = ostream.str();
+
+    tscalar            reread{};
+    std::istringstream istream(bytes);
+    ::nano::read(istream, reread);
+    const auto same = static_cast<bool>(istream) && std::memcmp(&reread, &value, sizeof(tscalar)) == 0;
+
+    // a one-element tensor: its stream is the header + the same bytes, its hash field is hash_combine(0, value)
+    tensor_mem_t<tscalar, 1> tensor(make_dims(1));
+    tensor(0) = value;
+    std::ostringstream tstream;
+    ::nano::write(tstream, tensor);
+    const auto tbytes = tstream.str();
+
+    dump_t out;
+    out.t("ok").t(xhex(bytes)).t(h16(detail::hash(&value, 1))).i(sizeof(tscalar)).i(same ? 1 : 0).t(xhex(tbytes));
+    return out.m_text;
+}
+
+std::string op_scalar(toks_t& toks, std::string& aug)
+{
+    const auto type  = toks.s();
+    const auto token = toks.s();
+    if (!toks.done())
+    {
+        throw bad_op("trailing tokens");
+    }
+    aug = "codec scalar " + type + " " + token + " #";
+
+    const auto bits = [&](const size_t digits) -> uint64_t
+    {
+        if (token.size() != digits || token.find_first_not_of("0123456789abcdef") != std::string::npos)
+        {
+            throw bad_op("bit pattern");
+        }
+        return std::stoull(token, nullptr, 16);
+    };
+    const auto sint = [&](const int64_t min, const int64_t max) -> int64_t
+    {
+        size_t     pos   = 0;
+        const auto value = std::stoll(token, &pos);
+        if (pos != token.size() || value < min || value > max)
+        {
+            throw bad_op("integer out of range");
+        }
+        return value;
+    };
+    const auto uint = [&](const uint64_t max) -> uint64_t
+    {
+        size_t pos = 0;
+        if (token.empty() || token[0] == '-')
+        {
+            throw bad_op("integer out of range");
+        }
+        const auto value = std::stoull(token, &pos);
+        if (pos != token.size() || value > max)
+        {
+            throw bad_op("integer out of range");
+        }
+        return value;
+    };
+
+    if (type == "i8") return scalar_selftest(static_cast<int8_t>(sint(-128, 127)));
+    if (type == "i16") return scalar_selftest(static_cast<int16_t>(sint(-32768, 32767)));
+    if (type == "i32") return scalar_selftest(static_cast<int32_t>(sint(-2147483648LL, 2147483647LL)));
+    if (type == "i64")
+        return scalar_selftest(sint(std::numeric_limits<int64_t>::min(), std::numeric_limits<int64_t>::max()));
+    if (type == "u8") return scalar_selftest(static_cast<uint8_t>(uint(255U)));
+    if (type == "u16") return scalar_selftest(static_cast<uint16_t>(uint(65535U)));
+    if (type == "u32") return scalar_selftest(static_cast<uint32_t>(uint(4294967295ULL)));
+    if (type == "u64") return scalar_selftest(uint(std::numeric_limits<uint64_t>::max()));
+    if (type == "f32")
+    {
+        const auto pattern = static_cast<uint32_t>(bits(8U));
+        float      value   = 0.0F;
+        std::memcpy(&value, &pattern, sizeof(value));
+        return scalar_selftest(value);
+    }
+    if (type == "f64")
+    {
+        const auto pattern = bits(16U);
+        double     value   = 0.0;
+        std::memcpy(&value, &pattern, sizeof(value));
+        return scalar_selftest(value);
+    }
+    throw bad_op("scalar type");
 }
 } // namespace
 
@@ -2148,6 +2493,14 @@ std::string vh::execute(toks_t& toks, std::string& aug)
     if (op == "read")
     {
         return op_read(toks, aug);
+    }
+    if (op == "into")
+    {
+        return op_into(toks, aug);
+    }
+    if (op == "scalar")
+    {
+        return op_scalar(toks, aug);
     }
     throw bad_op("unknown op " + op);
 }
